@@ -137,6 +137,8 @@ func (e *Exec) afterCall(st *State, fr *Frame, retTo ssa.Value, res Value, mode 
 	case 0, 2:
 		fr.pc++
 		return nil, true
+	case 3:
+		return e.seqReturned(st, fr)
 	case 1:
 		if fr.panicking {
 			return e.unwind(st, token.NoPos)
@@ -155,7 +157,58 @@ func onStack(st *State, fn *ssa.Function) bool {
 	return false
 }
 
+// performConcurrently models server.PerformConcurrently(fns...) when the
+// closures are statically known: each closure runs to completion starting at
+// the same instant (other goroutines, including the sibling closures, interfere
+// in between), and the call returns when the slowest one has finished.
+func (e *Exec) performConcurrently(st *State, fr *Frame, ci *callInfo, retTo ssa.Value, mode int) ([]*State, bool, bool) {
+	vals, ok := e.variadicArgs(st, ci.args[0])
+	if !ok {
+		return nil, false, false
+	}
+	sc := &seqCalls{startNow: st.now, maxNow: st.now, retTo: retTo, mode: mode}
+	for _, v := range vals {
+		if v.Fn == nil {
+			return nil, false, false
+		}
+		sc.fns = append(sc.fns, v.Fn)
+	}
+	e.modelled["server.PerformConcurrently (fork/join of its statically known arguments; the helper's own 9-line body is covered by the lock/safety sweep only)"] = true
+	e.blockingPoint(st, ci.pos, "PerformConcurrently")
+	fr.seq = sc
+	succ, cont := e.nextSeq(st, fr)
+	return succ, cont, true
+}
+
+func (e *Exec) nextSeq(st *State, fr *Frame) ([]*State, bool) {
+	sc := fr.seq
+	if sc.idx >= len(sc.fns) {
+		st.now = sc.maxNow
+		fr.seq = nil
+		return e.afterCall(st, fr, sc.retTo, Value{}, sc.mode)
+	}
+	f := sc.fns[sc.idx]
+	st.now = sc.startNow
+	if sc.idx > 0 {
+		e.interfere(st)
+	}
+	ci := &callInfo{fn: f.Fn, key: calleeKey(f.Fn), bind: f.Bind, sig: f.Fn.Signature}
+	return e.dispatch(st, fr, ci, nil, 3)
+}
+
+func (e *Exec) seqReturned(st *State, fr *Frame) ([]*State, bool) {
+	sc := fr.seq
+	sc.maxNow = e.define(st, "pc.max", Ite(Ge(st.now, sc.maxNow), st.now, sc.maxNow))
+	sc.idx++
+	return e.nextSeq(st, fr)
+}
+
 func (e *Exec) dispatch(st *State, fr *Frame, ci *callInfo, retTo ssa.Value, mode int) ([]*State, bool) {
+	if ci.key == "server.PerformConcurrently" && fr.seq == nil {
+		if succ, cont, ok := e.performConcurrently(st, fr, ci, retTo, mode); ok {
+			return succ, cont
+		}
+	}
 	// 1. engine intrinsics (locks, pure string functions, logging)
 	if res, ok, panics := e.intrinsic(st, fr, ci); ok {
 		if panics {
@@ -542,6 +595,12 @@ func (e *Exec) applyContract(st *State, fr *Frame, ci *callInfo, c *FuncContract
 		// callees preserve the global invariants (every function of the cone
 		// proves them at its return; library code cannot reach unexported state)
 		e.assumeGlobalInv(st)
+	}
+	if c.Attrs["returns_fresh"] == "true" && len(res) > 0 && len(res[0].L) == 1 {
+		// the callee hands back an object nobody else knows yet
+		st.fresh[res[0].L[0].S] = true
+		st.seq++
+		st.freshSeq[res[0].L[0].S] = st.seq
 	}
 	post := &SpecEnv{e: e, st: st, vars: env.vars, pkg: pkg, old: pre, oldTop: preTop, oldNow: preNow, trace: st.trace, what: "call " + c.Key}
 	e.bindResults(post, resultNames(c, sig), sig, res)
